@@ -22,10 +22,10 @@ Qed.
 
 Lemma find_none sh n : find sh n = None <-> ~ In n (names sh).
 Proof.
-  induction sh as [|x t IH]; cbn [find names map]; [tauto|].
+  induction sh as [|x t IH]; [cbn; tauto|]. cbn [find]. unfold names. cbn [map In]. fold (names t).
   destruct (q_name x =? n) eqn:E.
   - apply Z.eqb_eq in E. split; [discriminate | intros H; exfalso; apply H; left; exact E].
-  - apply Z.eqb_neq in E. fold (names t). rewrite IH. tauto.
+  - apply Z.eqb_neq in E. rewrite IH. tauto.
 Qed.
 
 Lemma in_find sh q : NoDup (names sh) -> In q sh -> find sh (q_name q) = Some q.
